@@ -94,6 +94,7 @@ def run(tier, seed, build):
     pairs = [(v[1], panelmat.jreq(v[2])) for v in printed_values(mc.out, "REQ")]
     groups, meta = [], {}
     eid = [0]
+    npre = [0]
 
     def ev(pd, r, label, tol=None):
         obs, ok = panelmat.observe(pd, r)
@@ -118,6 +119,14 @@ def run(tier, seed, build):
             ev(as_model(pd, "plate"), r, "full-plate partner of the w-only model")
         if pd["model"] in ("plate", "plate_w") and fr(pd["y1"]) == 0 and fr(pd["y2"]) == fr(pd["b"]):
             ev(swap_pd(pd), swap_req(r), "axis-exchanged partner")
+            if r["q"] == "k0" and npre[0] < (6 if tier == "quick" else 60):
+                # the same pair under a constant pre-load with a single non-zero component (exchanged: Nxx <-> Nyy)
+                comp = npre[0] % 3
+                npre[0] += 1
+                pn = copy.deepcopy(pd)
+                pn["Ncte"] = [rat(Fraction(-3, 2)) if k == comp else rat(0) for k in range(3)]
+                ev(pn, r, "base under a single-component pre-load")
+                ev(swap_pd(pn), swap_req(r), "axis-exchanged partner under the exchanged pre-load")
         ev(scale_pd(pd, Fraction(2), Fraction(3), Fraction(5)), r, "similar partner (s=2, e=3, q=5)")
         if r["q"] == "k0" and pd["model"] in ("plate", "cpanel") and fr(pd["y1"]) == 0 and fr(pd["y2"]) == fr(pd["b"]):
             rn = dict(r, num=[pd["m"] + 3, pd["n"] + 3])
